@@ -4,6 +4,7 @@ import Umya.Spec.Sml
 import Umya.Spec.Double
 import Umya.Model.Reader
 import Umya.Model.ReaderSheet
+import Umya.Model.ReaderStyleView
 /-
   C03 driver.  `c03 part <namehex> <isxml> <hex>` collects the parts of one package (lexed by
   `Umya.Spec.Xml`), `c03 decode` answers with the violations found by the independent decoder and
@@ -26,6 +27,7 @@ structure St where
   parts : List Part := []
   raws : List (String × List Char) := []      -- the characters of every XML part (for `model`)
   xfs : List XfV := []                        -- the style facts of the last `decode` (for `model`)
+  unst : List (List Text) := []               -- per sheet: the cells without `s` (last `decode`)
 
 def orTilde (o : Option Text) : String :=
   match o with
@@ -45,6 +47,72 @@ def factsOf (xfs : List XfV) (i : Nat) : String :=
   | some x =>
     let nf := if x.numFmtId ≥ 164 then s!"{x.numFmtId}:{orTilde x.formatCode}" else toString x.numFmtId
     s!"{nf}_{if x.bold then "b" else "-"}_{str x.fillPattern}_{str x.fillFg}"
+
+/-! the resolved effective facts of a cell's style, as the public getters show them (absent attributes by the
+    getters' defaults, float texts as binary64 bit patterns); the same renderer serves the decoder's `XfV` and the
+    reader model's `StyleR` (both as `Umya.Reader.StyleFacts`) -/
+open Umya.Reader (StyleFacts) in
+def floatBits (t : Text) : String :=
+  match Umya.Spec.Double.bits? t with
+  | some b => Umya.Spec.Double.hex16 b
+  | none => Umya.Spec.Double.hex16 0
+
+def optNat (o : Option Nat) : String := match o with | some n => toString n | none => "~"
+
+def colorStr (c : ColorV) : String :=
+  let rgb := if c.indexed.isSome then "~" else (match c.rgb with | some v => hexOf v | none => "~")
+  s!"{rgb}^{optNat c.theme}^{optNat c.indexed}^{match c.tint with | some t => floatBits t | none => "~"}"
+
+def flagStr (b : Bool) : String := if b then "1" else "0"
+
+def fontStr (f : FontV) : String :=
+  s!"{orTilde f.name}:{floatBits (f.size.getD "0".toList)}:{flagStr f.bold}{flagStr f.italic}{flagStr f.strike}:{str f.underline}:{colorStr f.color}"
+
+def fillStr (f : FillV) : String :=
+  s!"{str f.pattern}:{match f.fg with | some c => colorStr c | none => "-"}:{match f.bg with | some c => colorStr c | none => "-"}"
+
+def edgeStr (e : EdgeV) : String := s!"{str e.style}^{colorStr e.color}"
+
+def borderStr (b : BorderV) : String :=
+  s!"{edgeStr b.left}:{edgeStr b.right}:{edgeStr b.top}:{edgeStr b.bottom}:{edgeStr b.diagonal}:{flagStr b.diagonalUp}{flagStr b.diagonalDown}"
+
+def alignStr (a : AlignV) : String :=
+  s!"{str (a.horizontal.getD "general".toList)}:{str (a.vertical.getD "bottom".toList)}:{flagStr (a.wrapText.getD false)}:{a.textRotation.getD 0}"
+
+def protStr (p : ProtV) : String := s!"{flagStr (p.locked.getD false)}{flagStr (p.hidden.getD false)}"
+
+def optStr {α : Type} (f : α → String) (o : Option α) : String := match o with | some a => f a | none => "-"
+
+def fullFactsStr (f : Umya.Reader.StyleFacts) : String :=
+  let nf := match f.numFmtId with
+    | none => "0"
+    | some id => if id ≥ 164 then s!"{id}:{orTilde f.formatCode}" else toString id
+  s!"{nf}_{optStr fontStr f.font}_{optStr fillStr f.fill}_{optStr borderStr f.border}_{optStr alignStr f.alignment}_{optStr protStr f.protection}"
+
+def defaultFull : String := "0_-_-_-_-_-"
+
+/-- the decoder's facts of the cells of one sheet (document order): a cell without `s` has no style of its own;
+    `unst` = the references of those cells, in document order too (one linear walk) -/
+def specFulls (tab : Array String) : List Text → List CellV → List String
+  | u :: us, c :: cs =>
+    if u = c.ref then defaultFull :: specFulls tab us cs
+    else (match tab[c.style]? with
+          | some f => f
+          | none => if tab.isEmpty ∧ c.style = 0 then defaultFull else s!"no-xf-{c.style}") :: specFulls tab (u :: us) cs
+  | [], c :: cs =>
+    (match tab[c.style]? with
+     | some f => f
+     | none => if tab.isEmpty ∧ c.style = 0 then defaultFull else s!"no-xf-{c.style}") :: specFulls tab [] cs
+  | _, [] => []
+
+def cellStrWith (facts : String) (anchors : List Text) (c : CellV) : Option String :=
+  let formula := match c.formula with | some f => if f.isEmpty then none else some f | none => none
+  let kind := if c.kind = "s" ∧ c.value.isEmpty then "" else c.kind
+  if kind = "" ∧ formula.isNone ∧ facts = defaultFull then none
+  else if kind = "" ∧ formula.isNone ∧ anchors.contains c.ref then none
+  else
+    let val := if kind = "n" then bitsStr c.value else hexOf c.value
+    some s!"{str c.ref}/{kind}/{val}/{match formula with | some f => hexOf f | none => "~"}/{facts}"
 
 def cellStr (xfs : List XfV) (anchors : List Text) (c : CellV) : Option String :=
   let formula := match c.formula with | some f => if f.isEmpty then none else some f | none => none
@@ -104,11 +172,14 @@ def nameStr (n : NameV) : String :=
 def linkStr (l : Link) : String :=
   s!"{str l.ref}/{if l.external then "e" else "l"}/{hexOf l.target}/{if l.external then orTilde l.location else "~"}/{orTilde l.tooltip}"
 
-def viewStr (b : BookV) : String :=
+def viewStr (b : BookV) (unst : List (List Text) := []) : String :=
   let sheets := b.sheets.map (fun s => s!"{hexOf s.name}:{s.state}")
   let names := sortStrings (b.names.map nameStr)
-  let per := b.sheets.map fun s =>
-    let cells := s.cells.filterMap (cellStr b.xfs (s.links.map (·.ref)))
+  let tab : Array String := (b.xfs.map fun x => fullFactsStr (Umya.Reader.xfFacts id x)).toArray
+  let per := b.sheets.zipIdx.map fun (s, i) =>
+    let u := (unst[i]?).getD []
+    let anchors := s.links.map (·.ref)
+    let cells := (s.cells.zip (specFulls tab u s.cells)).filterMap (fun p => cellStrWith p.2 anchors p.1)
     let links := sortStrings (s.links.map linkStr)
     let rows := s.rows.filterMap (rowStr b.xfs)
     let tables := sortStrings <| s.tables.map fun t => s!"{hexOf t.name}:{hexOf t.displayName}:{str t.ref}:{"|".intercalate (t.columns.map hexOf)}"
@@ -180,6 +251,25 @@ def hasSub (p : List Char) : List Char → Bool
     C03-edge-start-end-tag-form): the other tag form is below the tree the model reads -/
 def emptyOnly : List String := ["sheet", "Relationship", "hyperlink", "mergeCell"]
 def startOnly : List String := ["definedName"]
+/-- the same for the styles part: the children of font / patternFill / an edge / xf and `<numFmt>` are seen only as
+    `Empty` events, `<fill>` only as a `Start` event -/
+def stylesEmptyOnly : List String :=
+  ["numFmt", "alignment", "protection", "b", "i", "u", "strike", "sz", "name", "rFont", "family", "charset", "scheme",
+   "vertAlign", "color", "fgColor", "bgColor"]
+def stylesStartOnly : List String := ["fill"]
+def stylesNames : List String :=
+  ["styleSheet", "numFmts", "numFmt", "fonts", "font", "fills", "fill", "patternFill", "gradientFill", "borders", "border",
+   "cellStyleXfs", "cellXfs", "xf", "alignment", "protection", "left", "right", "top", "bottom", "diagonal"] ++ stylesEmptyOnly
+
+def outsideTreeStyles (raw : List Char) : Bool :=
+  hasSub "<!--".toList raw || hasSub "<![CDATA[".toList raw ||
+  (match lex raw with
+   | none => true
+   | some toks => toks.any fun t => match t with
+     | .open n _ e =>
+       let ln := str (localName n)
+       (!e && stylesEmptyOnly.contains ln) || (e && stylesStartOnly.contains ln) || (n.contains ':' && stylesNames.contains ln)
+     | _ => false)
 /-- structural elements whose prefixed form (`x:sheetData`) the library does not see; `xdr:row`, `xm:f`, `a:t` …
     of other vocabularies occur inside worksheet parts and are seen by neither side -/
 def modelledNames : List String :=
@@ -213,9 +303,24 @@ def sortedCells (os : List CellOut) : List CellOut :=
 
 structure SheetM where
   sheet : SheetR
-  cells : List CellV
+  cells : List (CellV × String)       -- with the resolved style facts of the cell
   merges : List Text
   links : List Link
+
+def keepLastF : List (CellOut × String) → List (CellOut × String)
+  | a :: b :: rest => if a.1.row = b.1.row ∧ a.1.col = b.1.col then keepLastF (b :: rest) else a :: keepLastF (b :: rest)
+  | l => l
+
+def sortedCellsF (os : List (CellOut × String)) : List (CellOut × String) :=
+  keepLastF (os.mergeSort fun a b => a.1.row < b.1.row || (a.1.row = b.1.row && a.1.col ≤ b.1.col))
+
+/-- the style facts of the cells in document order (`cellStyle`: `get_style(s)`); `none` = panic -/
+def cellFacts (made : List StyleR) (cs : List Node) : Option (List String) :=
+  let tab : Array String := (made.map fun st => fullFactsStr (styleFacts st)).toArray
+  cs.mapM fun c =>
+    match c.attr? "s".toList with
+    | none => some defaultFull
+    | some v => (parseUsize v).bind fun i => tab[i]?
 
 inductive MRes where
   | unmodelled (why : String)
@@ -227,17 +332,17 @@ def stateStr (s : Option Text) : String :=
   | some v => if v = "hidden".toList then "hidden" else if v = "veryHidden".toList then "veryHidden" else "visible"
   | none => "visible"
 
-def mviewStr (xfs : List XfV) (sheets : List SheetM) (names : List NameV) : String :=
+def mviewStr (sheets : List SheetM) (names : List NameV) : String :=
   let sh := sheets.map fun s => s!"{hexOf s.sheet.name}:{stateStr s.sheet.state}"
   let nm := sortStrings (names.map nameStr)
   let per := sheets.map fun s =>
-    let cells := s.cells.filterMap (cellStr xfs (s.links.map (·.ref)))
+    let cells := s.cells.filterMap (fun c => cellStrWith c.2 (s.links.map (·.ref)) c.1)
     let links := sortStrings (s.links.map linkStr)
     s!"cells={",".intercalate cells};merges={",".intercalate (s.merges.map str)};links={",".intercalate links}"
   s!"sheets={"|".intercalate sh};names={"|".intercalate nm} # {" # ".intercalate per}"
 
 /-- one sheet: `none` = the model panics -/
-def modelSheet (parts : List Part) (sst : List (Option Text)) (wbRels : List RelR) (s : SheetR) : Option SheetM :=
+def modelSheet (parts : List Part) (made : List StyleR) (sst : List (Option Text)) (wbRels : List RelR) (s : SheetR) : Option SheetM :=
   match (sheetPart wbRels s).bind (fun p => (partRoot parts p).map fun r => (p, r)) with
   | none => some ⟨s, [], [], []⟩          -- no relationship / no such part: the sheet stays empty
   | some (path, root) =>
@@ -246,11 +351,11 @@ def modelSheet (parts : List Part) (sst : List (Option Text)) (wbRels : List Rel
     let hs := ((root.kid? "hyperlinks").map (·.kids "hyperlink")).getD []
     let ms := ((root.kid? "mergeCells").map (·.kids "mergeCell")).getD []
     match readSheetData sst rows, (match rels with | some none => none | some (some r) => readHyperlinks (some r) hs | none => readHyperlinks none hs),
-          readMerges ms with
-    | some os, some ls, some mg =>
-      some ⟨s, (sortedCells os).map outToCellV, mg,
+          readMerges ms, cellFacts made (rows.flatMap (·.kids "c")) with
+    | some os, some ls, some mg, some fs =>
+      some ⟨s, (sortedCellsF (os.zip fs)).map (fun p => (outToCellV p.1, p.2)), mg,
         ls.map fun l => { ref := l.ref, external := !l.location, target := l.url, tooltip := if l.tooltip.isEmpty then none else some l.tooltip }⟩
-    | _, _, _ => none
+    | _, _, _, _ => none
 
 /-- statistics of the shared groups of a `<sheetData>` as the MODEL sees them (informational) -/
 def groupStats (os : List CellOut) : Nat × Nat :=
@@ -262,6 +367,7 @@ def runModel (parts : List Part) (raws : List (String × List Char)) : MRes :=
     n = "xl/workbook.xml" || n = "xl/sharedStrings.xml" || n.endsWith ".rels" ||
     (match partRoot parts n.toList with | some r => localName r.name = "worksheet".toList | none => false)
   if relevant.any (fun (_, raw) => outsideTree raw) then .unmodelled "tag-forms-or-comments"
+  else if (raws.filter fun (n, _) => n = "xl/styles.xml").any (fun (_, raw) => outsideTreeStyles raw) then .unmodelled "styles-tag-forms"
   else
     match partRoot parts "xl/workbook.xml".toList, (partRoot parts "xl/_rels/workbook.xml.rels".toList) with
     | some wb, some wr =>
@@ -273,7 +379,11 @@ def runModel (parts : List Part) (raws : List (String × List Char)) : MRes :=
       | some wrs, some sl, some dn =>
         if dn.any (fun d => match d.localSheetId with | some i => decide (i ≥ sl.length) | none => false) then .panic "localSheetId"
         else
-          match sl.mapM (modelSheet parts sst wrs) with
+          -- reader/xlsx/styles.rs: the part `xl/styles.xml`, `set_attributes` + `make_style` (float texts compared as bits: `cf` = id)
+          match (match partRoot parts "xl/styles.xml".toList with | some r => readStyleSheet id r | none => some []) with
+          | none => .panic "styles"
+          | some made =>
+          match sl.mapM (modelSheet parts made sst wrs) with
           | none => .panic "sheet"
           | some sheets =>
             .ok sheets (dn.map fun d => NameV.mk d.name d.localSheetId d.text) ""
@@ -301,7 +411,8 @@ def handle (st : St) (args : List String) : St × String :=
     | _, _ => (st, "bad-op")
   | ["decode"] =>
     let (bv, errs) := decode st.parts
-    let v := match bv with | some b => viewStr b | none => "none"
+    let unst := unstyledOf st.parts
+    let v := match bv with | some b => viewStr b unst | none => "none"
     -- informational (after ` ## `): which sheets leave the positions of rows / cells implicit
     let notes := match bv with
       | some b => (b.sheets.zipIdx.filterMap fun (s, i) => if s.noR then some s!"no-r:{i}" else none)
@@ -313,13 +424,13 @@ def handle (st : St) (args : List String) : St × String :=
     -- the classifier reports it (the implementation is compared with the spec through the view, so the
     -- three agree pairwise on every file that passes)
     let mp := if errs.isEmpty ∧ !pdiff.isEmpty then s!";modelpos={" / ".intercalate (pdiff.take 3)}" else ""
-    ({ st with xfs := match bv with | some b => b.xfs | none => [] },
+    ({ st with xfs := (match bv with | some b => b.xfs | none => []), unst := unst },
      s!"errs={errs.length};{" | ".intercalate (errs.take 5)}{mp};view={v} ## model-vs-spec-cells={bad}/{n} model-vs-spec-positions={pdiff.length}/{nws} rows={nrows} cells={ncells} rows-no-r={rowsNoR} cells-no-r={cellsNoR} {" ".intercalate notes}")
   | ["model"] =>
     match runModel st.parts st.raws with
     | .unmodelled _ => (st, "unmodelled")
     | .panic why => (st, s!"mview=read-panicked ## {why}")
-    | .ok sheets names stats => (st, s!"mview={mviewStr st.xfs sheets names} ## {stats}")
+    | .ok sheets names stats => (st, s!"mview={mviewStr sheets names} ## {stats}")
   | _ => (st, "bad-op")
 
 end Umya.Driver.C03
